@@ -292,7 +292,7 @@ def render_isar_member(m, counter_name=None):
     if m.kind == OPT:
         return '<member %s optional="true"/>' % attrs
     if m.kind == FIXARR:
-        return '<member %s><dimension size="%s"/></member>' % (attrs, _xml(m.size_expr))
+        return '<member %s><dimension size="%s"/></member>' % (attrs, _xml(isar_size(m)))
     if m.kind == EXTARR:
         return '<member %s><dimension variableSizeFieldName="@%s"/></member>' % (attrs, m.sizer)
     cname = counter_name or ('num_of_' + m.name)
@@ -300,8 +300,15 @@ def render_isar_member(m, counter_name=None):
         return ('<member %s><dimension isVariableSize="true" variableSizeFieldName="%s"/></member>' % (attrs, cname))
     if m.kind == LIMARR:
         return ('<member %s><dimension size="%s" isVariableSize="true" variableSizeFieldName="%s"/></member>'
-                % (attrs, _xml(m.size_expr), cname))
+                % (attrs, _xml(isar_size(m)), cname))
     raise ValueError("isar cannot express member kind %s" % m.kind)
+
+
+def isar_size(m):
+    """Array extent as written on the isar side: expressions with shifts or divisions (which isar documents only as
+    functions, or not at all) are given as the number they denote - the same type, described differently."""
+    e = m.size_expr
+    return str(m.size) if any(op in e for op in ('<<', '>>', '/')) else e
 
 
 def render_isar_decl(d, expr_render=None):
